@@ -376,7 +376,7 @@ class Reconcile:
                 self.recurse_node(child, astfield(field), outf, nodef)
 
             elif not isinstance(child, list):  # primitive, or None to delete possibly AST child
-                if nodef is not False and child != getattr(outa, field):  # this SHOULDN'T happen if coming from pure AST but could if there was a contradictory value set by the user, so in case of pure AST we don't do this at all because was set correctly on our own put of the AST somewhere above
+                if nodef is not False and (child != (outa_child := getattr(outa, field)) or child.__class__ is not outa_child.__class__):  # class because 1 == True == 1.0  # this SHOULDN'T happen if coming from pure AST but could if there was a contradictory value set by the user, so in case of pure AST we don't do this at all because was set correctly on our own put of the AST somewhere above
                     outf.put(child, field=field, trivia=self.trivia_ast_put, **self.options)
 
             else:  # slice
